@@ -4,7 +4,7 @@ PROPS[pid]["rules"] = [(rule id, floor of decided instances, selector over insta
 Floors are the numbers counted on the tree the rules were written against: a rule that suddenly
 matches fewer sites is a broken check (exit 2), never a silent pass.
 """
-from . import nc, lt, td, pm, hs, ws, tf, ec, se, bb, lc, cm, vt, bt, sr, le, wf, dp, dt, he, gl, ts, ee, sl, wp, fs, ic, nb, im, rn, mp, sp, ms, cp, sh, st, rh, vo, wi, law, cn, pr, dtr, sa, vx
+from . import mk, nc, lt, td, pm, hs, ws, tf, ec, se, bb, lc, cm, vt, bt, sr, le, wf, dp, dt, he, gl, ts, ee, sl, wp, fs, ic, nb, im, rn, mp, sp, ms, cp, sh, st, rh, vo, wi, law, cn, pr, dtr, sa, vx
 
 
 def has(*subs):
@@ -72,6 +72,7 @@ RULES = {
     "SR": {"run": sr.run},
     "LE": {"run": le.run},
     "NC": {"run": nc.run},
+    "MK": {"run": mk.run},
 }
 
 BDD_T = ("BddNode", "BddPtr")
@@ -85,7 +86,8 @@ PROPS = {
                   ("DT", 7, has("BddPtr", "BottomUpBuilder::or:", "BottomUpBuilder::compose:")),
                   ("FS", 2, has("or_lst", "and_lst")), ("ST", 2, None), ("GL", 1, has("GL6")), ("VO", 14, vo_sel("::bdd::", "var_order")),
                   ("GL", 9, has(":GL1:", ":GL2:", "ite_helper:GL4", ":GL5:", ":GL8:", "ite_helper:GL11")),
-                  ("SH", 5, has("RobddBuilder", "BottomUpBuilder<repr::bdd::BddPtr> for T>::var"))],
+                  ("SH", 5, has("RobddBuilder", "BottomUpBuilder<repr::bdd::BddPtr> for T>::var")),
+                  ("MK", 1, has("::bdd::"))],
         "explanation": "Six structural clauses of BDD operation correctness. (e) the standard-triple normalisation Ite::new "
                        "preserves ite(f,g,h) on every path for every truth assignment (ST: exhaustive abstract interpretation over "
                        "the 8-value pointer domain); (f) the Shannon node is node(top, ite of false-cofactors, ite of "
@@ -96,7 +98,7 @@ PROPS = {
                        "only new+alloc (IM2, IM3), node fields Freeze except the two private cells (HE); (c) derived operators "
                        "and/iff/xor/exists/negate/or/compose evaluate to their names' truth tables (DT); (d) list operations "
                        "are seeded with the neutral element (FS). Not decided: Shannon expansion, the standard-triple "
-                       "rewriting in Ite::new, order handling — most of the property. Added: the apply cache cannot change a result (Lru get/insert/grow keep key, value and hash together, the BDD ite cache uses one key and one hash: GL1, GL2, GL4, GL5); label numbering never decides an ordering question (VO label-order).",
+                       "rewriting in Ite::new, order handling — most of the property. Added: the apply cache cannot change a result (Lru get/insert/grow keep key, value and hash together, the BDD ite cache uses one key and one hash: GL1, GL2, GL4, GL5); label numbering never decides an ordering question (VO label-order). Added after the fourth seeding round: every function that looks a pointer up in a pointer-valued memo, returns the hit and inserts into the same memo applies the argument's sign the same way going in and coming out (MK1: hit returned as neg^r(X) means stored V and returned R on a miss satisfy R = neg^r(V), for each sign), and a memo entry shared by a node and its complement without sign adjustment is only allowed for a function that never returns its argument itself (MK2). Today's only instance is cond_with_alloc; the rule ranges over all functions, so a memo added to another traversal is checked too.",
     },
     "C03": {
         "level": "other",
@@ -105,14 +107,14 @@ PROPS = {
                   ("ST", 2, None), ("SH", 1, has("SddPtr> for T>::condition")), ("SA", 12, None), ("VX", 11, None),
                   ("VO", 1, vo_sel("::sdd::", only_label_order=True)),
                   ("GL", 12, has(":GL1:", ":GL2:", "SddPtr> for T>::ite:GL4", "SddPtr> for T>::and:GL4", "AllIteTable:GL8", ":GL10:", "SddPtr> for T>::ite:GL11", "SddPtr> for T>::and:GL11")),
-                  ("BT", 9, None)],
+                  ("BT", 9, None), ("MK", 0, has("::sdd::"))],
         "explanation": "Complement coherence of every place the SDD code touches subs/children of a possibly complemented node "
                        "(and_sub_desc, and_prime_desc, and_cartesian, condition, SddPtr::{low,high,neg,is_neg}): operands of "
                        "and/ite/..., elements of result nodes and traversal recursion denote the same thing for a regular and "
                        "a complemented pointer; primes are never sign-dependent (CP). Derived operators ite/iff/xor/exists/"
                        "negate/or/compose match their truth tables (DT); the standard-triple normalisation used by the SDD ite preserves "
                        "ite(f,g,h) (ST); a literal conditioned on its own variable is True iff polarity == value (SH). History immunity (IM, HE). Not decided: the vtree "
-                       "case analysis of and, cartesian-product shortcuts, conditioning's element recursion. Added: no ordering comparison of variable labels in SDD code - vtree positions decide (VO label-order); every implementor's compose satisfies the documented definition with g allowed to mention the variable (DT on overrides); the SDD ite/and caches use one key and one hash and the Lru keeps key/value/hash together (GL1, GL2, GL4).",
+                       "case analysis of and, cartesian-product shortcuts, conditioning's element recursion. Added: no ordering comparison of variable labels in SDD code - vtree positions decide (VO label-order); every implementor's compose satisfies the documented definition with g allowed to mention the variable (DT on overrides); the SDD ite/and caches use one key and one hash and the Lru keeps key/value/hash together (GL1, GL2, GL4). Added after the fourth seeding round: every function that looks a pointer up in a pointer-valued memo, returns the hit and inserts into the same memo applies the argument's sign the same way going in and coming out (MK1: hit returned as neg^r(X) means stored V and returned R on a miss satisfy R = neg^r(V), for each sign), and a memo entry shared by a node and its complement without sign adjustment is only allowed for a function that never returns its argument itself (MK2). There is no such memo in the SDD code today (floor 0); the rule ranges over all functions, so one that is added is checked.",
     },
     "C06": {
         "level": "other",
